@@ -95,12 +95,13 @@ def gen_program(rng, name, kinds_pool, nregs=None, nsteps=None, ops=None, with_c
     def emit(l, e=None): lines.append(l); exp.append(e)
     for r, k in zip(regs, kinds): emit("new %s %s" % (r, k), "ok"); sh[r] = Shadow(k)
     nsteps = nsteps or rng.randint(15, 90)
-    ops = ops or ["add"] * 6 + ["addw"] * 5 + ["addbin", "merge", "merge", "copy", "clear", "reweight", "obs", "obs", "rank", "rank", "burst", "codec", "foreachstop", "binsch"]
+    ops = ops or ["add"] * 6 + ["addw"] * 5 + ["addbin", "merge", "merge", "copy", "clear", "reweight", "obs", "obs", "rank", "rank", "burst", "codec", "foreachstop", "binsch", "badrew"]
     nrew = 0; nb = 0
     def obs(r): emit("obs " + r, sh[r].obsline())
     def ranks(r):
         s = sh[r]
-        if not s.m: return
+        if not s.m:          # KeyAtRank of an empty store: no documented answer, the model's is compared
+            emit("rank %s %s" % (r, wh(rng.choice([Fraction(0), Fraction(1), Fraction(-1), Fraction(7, 2)]))), None); return
         acc = Fraction(0); cands = [Fraction(-1), Fraction(0)]
         for k in sorted(s.m):
             acc += s.m[k]; cands += [acc, acc - Fraction(1, 1024), acc + Fraction(1, 1024)]
@@ -136,6 +137,8 @@ def gen_program(rng, name, kinds_pool, nregs=None, nsteps=None, ops=None, with_c
             if nrew >= 2: continue
             w = rng.choice([Fraction(1), Fraction(3), Fraction(1, 2), Fraction(5, 4), Fraction(3, 8), Fraction(1, 4), Fraction(63, 8), Fraction(2)])
             nrew += 1; emit("reweight %s %s" % (r, wh(w)), "ok"); sh[r].reweight(w); obs(r)
+        elif op == "badrew":          # a non-positive factor is refused and changes nothing
+            emit("reweight %s %s" % (r, f2h(rng.choice([0.0, -0.0, -1.0, -0.5, float("-inf"), -5e-324]))), "err bad-factor"); obs(r)
         elif op == "obs": obs(r)
         elif op == "rank": ranks(r)
         elif op == "foreachstop":
